@@ -103,9 +103,29 @@ def impl(case):
         for _ in range(1 + len(case.get("options") or []) + min(part, n_nodes)):
             next(it)                   # an abandoned first iteration: header, options, `part` node lines
     mseq = case.get("maxlevel_seq") or []
+    seq = case.get("seq") or []
     for i in range(case.get("iterations", 1)):
         if i < len(mseq):
             exp.maxlevel = mseq[i]         # the exporter's public attribute changed between two iterations
+        ov = seq[i] if i < len(seq) else None
+        if ov:
+            for l, v in ov.get("names", []):
+                if index[l].name != v:
+                    index[l].name = v      # the tree was renamed between two iterations
+            if "filter_out" in ov:
+                if case.get("seq_assign"):
+                    exp.filter_ = (lambda s_: (lambda n: n.label not in s_))(set(ov["filter_out"]))
+                else:
+                    fo.clear()
+                    fo.update(ov["filter_out"])      # the predicate reads mutable state
+            if "stop" in ov:
+                if case.get("seq_assign"):
+                    exp.stop = (lambda s_: (lambda n: n.label in s_))(set(ov["stop"]))
+                else:
+                    st.clear()
+                    st.update(ov["stop"])
+            if "maxlevel" in ov:
+                exp.maxlevel = ov["maxlevel"]
         lines.extend(list(exp))
     if case.get("tofile"):
         # the file writers must emit the same lines (Mermaid: inside a ```mermaid fence)
